@@ -132,6 +132,12 @@ class System:
                     ty = self.type_of(n.value, types)
                 elif n.kind == "call":
                     ty = self.objects[n.obj]["model"].result_type(n.method)
+                    if isinstance(ty, tuple):
+                        for name, t2 in self.flat_types(ty, n.target):
+                            if types.get(name) is None:
+                                types[name] = t2
+                                changed = True
+                        continue
                 else:
                     continue
                 tgt = n.target
@@ -145,6 +151,29 @@ class System:
         for name, ty in types.items():
             self.S.declare(name, "bool" if ty == "bool" else W, False if ty == "bool" else 0)
 
+    def flat_types(self, rt, tmp):
+        if rt[0] == "rec":
+            return [(f"{tmp}#{f}", t) for f, t in rt[2].items()]
+        out = []
+        for i, x in enumerate(rt[1]):
+            if isinstance(x, tuple):
+                out += self.flat_types(x, f"{tmp}.{i}")
+            elif x is not None:
+                out.append((f"{tmp}.{i}", x))
+        return out
+
+    def bind_result(self, env, target, rt, value):
+        """Store a primitive's result into the locals that result_rexpr() names."""
+        if isinstance(rt, tuple) and rt[0] == "rec":
+            for f in rt[2]:
+                env[f"{target}#{f}"] = zconst(value[2][f])
+        elif isinstance(rt, tuple) and rt[0] == "tuple":
+            for i, x in enumerate(rt[1]):
+                if x is not None:
+                    self.bind_result(env, f"{target}.{i}", x, value[1][i])
+        elif value is not None:
+            env[target] = zconst(value)
+
     def type_of(self, r, types):
         k = r[0]
         if k == "c":
@@ -156,7 +185,7 @@ class System:
             return "none"
         if k == "v":
             return types.get(r[1])
-        if k in ("cmp", "not", "and", "or", "isinstance"):
+        if k in ("cmp", "not", "and", "or", "isinstance", "bit"):
             return "bool"
         if k in ("bin", "un"):
             return "int"
@@ -230,6 +259,21 @@ class System:
             return {"<": z3.ULT, "<=": z3.ULE, ">": z3.UGT, ">=": z3.UGE}[op](a, b)
         if k == "tuple":
             return ("tuple", [self.ev(x, env, reads) for x in r[1]])
+        if k == "list":
+            return ("list", [self.ev(x, env, reads) for x in r[1]])
+        if k == "rec":
+            return ("rec", r[1], {f: self.ev(x, env, reads) for f, x in r[2].items()})
+        if k == "bit":
+            m = self.ev(r[1], env, reads)
+            if isinstance(m, int):
+                return bool((m >> r[2]) & 1)
+            return z3.Extract(r[2], r[2], m) == 1
+        if k == "ite":
+            c = self.truth(self.ev(r[1], env, reads))
+            a, b = self.ev(r[2], env, reads), self.ev(r[3], env, reads)
+            if isinstance(c, bool):
+                return a if c else b
+            return z3.If(c, zconst(a), zconst(b))
         raise Unsupported(f"expression form {k}")
 
     def truth(self, v):
@@ -245,8 +289,10 @@ class System:
             return v
         if z3.is_bv(v):
             return v != 0
-        if isinstance(v, tuple) and v[0] in ("o", "tuple"):
+        if isinstance(v, tuple) and v[0] in ("o", "tuple", "list"):
             return True
+        if isinstance(v, tuple) and v[0] == "rec":
+            return self.truth(v[2]["?"]) if "?" in v[2] else True
         raise Unsupported(f"truth value of {v!r}")
 
     # ------------------------------------------------------------------ transition generation
@@ -319,8 +365,7 @@ class System:
                     nxt = n.exc[o.exc]
                 else:
                     nxt = n.next
-                    if o.result is not None:
-                        env[n.target] = zconst(o.result)
+                    self.bind_result(env, n.target, model.result_type(n.method), o.result)
                 info = {"obj": n.obj, "method": n.method, "outcome": o.label, "exc": o.exc}
                 for pc, upd, dst, fail in self.walk(t, nxt, env, []):
                     self.emit(t, src, dst, o.guard, pc, upd, fail, f"{n.obj}.{n.method}:{o.label}", info)
@@ -367,8 +412,7 @@ class System:
                     raise Unsupported(f"fused primitive {node.obj}.{node.method} must be deterministic")
                 for k2, v2 in outs[0].updates.items():
                     env[k2] = zconst(v2)
-                if outs[0].result is not None:
-                    env[node.target] = zconst(outs[0].result)
+                self.bind_result(env, node.target, model.result_type(node.method), outs[0].result)
                 node = node.next
                 continue
             if node.kind in ("call", "end", "fail"):
